@@ -7,8 +7,11 @@ Decided per decoder and variant, for every byte string:
  (3) public key: every value converted into Z_q on a non-Err path lies in [0, q-1] (no silent reduction);
  (4) the accepted signature is stored verbatim (salt = bytes[1..=40], s = bytes[41..]) so re-encoding
      reproduces the input given (2);
-Not decided: bit-level inverse-ness of the field packing loops for keys; the secret-key reserved
-pattern (covered exhaustively by the suite's own field-element test)."""
+ (5) secret key: the reserved field value (sign bit set, all other bits clear, i.e. -2^(w-1)) is rejected by
+     deserialize_field_element for every field width the variant uses, decided in a known-bits domain (the
+     pattern is an abstract input whose bits are all known); controls: all-ones (-1) and "sign bit, one more
+     known 1, rest unknown" are accepted and never rejected; all three field loops of from_bytes go through it;
+Not decided: bit-level inverse-ness of the field packing loops for keys."""
 from fv.absint import St, Pt, Ag, I, Sq, En
 from fv.oracle import SPEC, Q
 from .common import Session, record_obligations
@@ -91,7 +94,58 @@ def run(R):
                         f"{len(bad)} of {len(mine)} conversions may receive a value outside [0,{Q - 1}], e.g. {bad[:1]} — it would be silently reduced",
                         key=f"pkrange|{N}", data={"example": bad[:3]})
     obls = S.obligations_since(0)
+    clause_reserved(R)
     R.analysed["abstract_runs"] = nruns
     R.analysed["obligations_seen"] = len(obls)
     R.analysed["unsupported"] = S.unsupported[:10]
     R.floor("abstract runs", nruns, 6 * 258)
+
+
+def clause_reserved(R):
+    from fv.absint import Md
+    from . import c05
+    S = Session()
+    ctx = S.ctx
+    ctx.hooks["may_panic"] = lambda inst: False
+    ctx.hooks["exact_anyall"] = True
+    ctx.hooks["exact_collect_max"] = 8
+    u8, usz = S.ty("u8"), ctx.usize_ty()
+    for N in (512, 1024):
+        de = S.find(f"falcon::SecretKey::<{N}>::deserialize_field_element")
+        ctx.hooks["unroll"] = lambda fr, h, de=de: 10 if fr.inst is de else 0
+        for w in sorted(set(c05.widths(S, N))):
+            def go(val, mask):
+                st = St()
+                b = ctx.mk_int(st, val, val if mask == 0xFF else 255, u8)
+                if mask != 0xFF:
+                    st.prov[b.vid] = ("kbits", (), (mask, val))
+                src = Sq(b, ctx.const_int(st, 1, usz), {0: b})
+                bits = S.cell(st, "bits", Md("bitvec", {"len": ctx.const_int(st, w, usz), "src": src}))
+                outs = S.run(de, [bits], st)
+                vs = set()
+                for r, _ in outs:
+                    if type(r) is En:
+                        vs |= set(r.vs)
+                return vs
+            site = f"SecretKey::<{N}>::deserialize_field_element, width {w}"
+            vs = go(1 << 7, 0xFF)
+            R.check(vs == {1}, "C06-reserved", site + ": 1" + "0" * (w - 1), "the reserved minimum value is rejected (only Err reachable)", f"reachable variants {sorted(vs)}: the reserved pattern is accepted", key=f"reserved|{N}|{w}")
+            vs = go(((1 << w) - 1) << (8 - w), 0xFF)
+            R.check(vs == {0}, "C06-reserved", site + ": " + "1" * w, "-1 is accepted (control)", f"reachable variants {sorted(vs)}", key=f"reserved-ctl1|{N}|{w}")
+            okc = True
+            for k in range(1, w):
+                val = (1 << 7) | (1 << (7 - k))
+                mask = val | ((1 << (8 - w)) - 1)          # bits beyond the field width do not exist: mark them known (0)
+                vs = go(val, mask)
+                okc = okc and vs == {0}
+            R.check(okc, "C06-reserved", site + ": sign bit + one more set bit, rest unknown", "every other negative value is accepted, never rejected (control partitions)", "a valid negative field is rejected", key=f"reserved-ctl2|{N}|{w}")
+    # wiring: the three field loops of from_bytes call it
+    prog = S.prog
+    for N in (512, 1024):
+        fb = S.find(f"falcon::SecretKey::<{N}>::from_bytes")
+        de = S.find(f"falcon::SecretKey::<{N}>::deserialize_field_element")
+        seen = prog.reach([fb.id])
+        callers = [prog.inst[i] for i in seen if any(e.get("to") == de.id for e in prog.inst[i].edges if e["k"] in ("call", "fnitem", "reify"))]
+        R.check(len(callers) >= 3 or sum(1 for i in seen for e in prog.inst[i].edges if e.get("to") == de.id) >= 3, "C06-reserved", f"SecretKey::<{N}>::from_bytes", "the three field loops (f, g, F) decode through deserialize_field_element",
+                f"only {len(callers)} caller(s) of deserialize_field_element in from_bytes' cone", key=f"reserved-wiring|{N}")
+    R.analysed.setdefault("unsupported", []).extend(S.unsupported[:5])
